@@ -90,9 +90,11 @@ def standin_born(tier, seed):
         ("Simulator(split_untangled_states=False)", lambda s: cirq.Simulator(seed=s, split_untangled_states=False), "any"),
         ("DensityMatrixSimulator", lambda s: cirq.DensityMatrixSimulator(seed=s), "any"),
         ("CliffordSimulator", lambda s: cirq.CliffordSimulator(seed=s), "clifford"),
+        ("CliffordSimulator(split_untangled_states=True)", lambda s: cirq.CliffordSimulator(seed=s, split_untangled_states=True), "clifford"),
+        ("StabilizerSampler", lambda s: cirq.StabilizerSampler(seed=s), "clifford"),
     ]
     for i in range(n):
-        mode = rng.choice(["plain", "plain", "clifford", "qudit"])
+        mode = rng.choice(["plain", "plain", "clifford", "clifford", "qudit"])
         c, qs = _gen_circuit(rng, clifford=(mode == "clifford"), qudit=(mode == "qudit"))
         try:
             want = refsim.ref_distribution(c, qs)
@@ -101,7 +103,7 @@ def standin_born(tier, seed):
         for name, mk, needs in sims:
             if needs == "clifford" and mode != "clifford":
                 continue
-            if mode == "qudit" and name == "CliffordSimulator":
+            if mode == "qudit" and ("Clifford" in name or "Stabilizer" in name):
                 continue
             try:
                 branches = enumerate_branches(lambda r: _canon_records(mk(r).run(c, repetitions=1)))
@@ -150,12 +152,14 @@ def standin_born_scenarios(tier, seed):
 
     a, b, c = cirq.LineQubit.range(3)
     preps = {"product": [cirq.H(a), cirq.X(b) ** 0.5], "bell": [cirq.H(a), cirq.CNOT(a, b)], "ghz": [cirq.H(a), cirq.CNOT(a, b), cirq.CNOT(b, c)],
-             "bell+T": [cirq.H(a), cirq.CNOT(a, b), cirq.T(b), cirq.H(b)]}
+             "bell+T": [cirq.H(a), cirq.CNOT(a, b), cirq.T(b), cirq.H(b)], "bell, flipped": [cirq.H(a), cirq.CNOT(a, b), cirq.X(a)],
+             "ghz, phased": [cirq.H(b), cirq.CNOT(b, a), cirq.CNOT(b, c), cirq.S(b), cirq.X(c)]}
     mids = {
         "ZZ": [cirq.measure_single_paulistring(cirq.Z(a) * cirq.Z(b), key="p")], "XX": [cirq.measure_single_paulistring(cirq.X(a) * cirq.X(b), key="p")],
         "-YZ": [cirq.measure_single_paulistring(-1 * cirq.Y(a) * cirq.Z(c), key="p")], "XZX": [cirq.measure_single_paulistring(cirq.X(a) * cirq.Z(b) * cirq.X(c), key="p")],
         "Za": [cirq.measure_single_paulistring(cirq.Z(a), key="p")], "m(a)": [cirq.measure(a, key="p")], "m(b,a) inv": [cirq.measure(b, a, key="p", invert_mask=(True, False))],
-        "m(a);m(a)": [cirq.measure(a, key="p"), cirq.H(a), cirq.measure(a, key="p")],
+        "m(a);m(a)": [cirq.measure(a, key="p"), cirq.H(a), cirq.measure(a, key="p")], "m(b);m(a)": [cirq.measure(b, key="p"), cirq.measure(a, key="p")],
+        "m(c);m(c)": [cirq.measure(c, key="p"), cirq.measure(c, key="p")],
         "XX;ZZ;XX": [cirq.measure_single_paulistring(cirq.X(a) * cirq.X(b), key="p"), cirq.measure_single_paulistring(cirq.Z(a) * cirq.Z(b), key="p"),
                      cirq.measure_single_paulistring(cirq.X(a) * cirq.X(b), key="p")],
     }
@@ -163,7 +167,8 @@ def standin_born_scenarios(tier, seed):
              "cnot then measure": [cirq.CNOT(b, a), cirq.H(b), cirq.measure(a, b, key="m")], "reset": [cirq.reset(a), cirq.measure(a, b, key="m")]}
     sims = [("Simulator", lambda s: cirq.Simulator(seed=s)), ("Simulator(split_untangled_states=False)", lambda s: cirq.Simulator(seed=s, split_untangled_states=False)),
             ("DensityMatrixSimulator", lambda s: cirq.DensityMatrixSimulator(seed=s)),
-            ("DensityMatrixSimulator(split_untangled_states=False)", lambda s: cirq.DensityMatrixSimulator(seed=s, split_untangled_states=False))]
+            ("DensityMatrixSimulator(split_untangled_states=False)", lambda s: cirq.DensityMatrixSimulator(seed=s, split_untangled_states=False)),
+            ("CliffordSimulator", lambda s: cirq.CliffordSimulator(seed=s)), ("StabilizerSampler", lambda s: cirq.StabilizerSampler(seed=s))]
     cases, fails, distinct = 0, [], set()
     for (pn, P), (mn, M), (qn, Q) in itertools.product(preps.items(), mids.items(), posts.items()):
         circ = cirq.Circuit(P, M, Q)
@@ -171,8 +176,16 @@ def standin_born_scenarios(tier, seed):
         want = refsim.ref_distribution(circ, qs)
         for name, mk in sims:
             got = {}
-            for p_, rec in enumerate_branches(lambda r: _canon_records(mk(r).run(circ, repetitions=1))):
-                got[rec] = got.get(rec, 0.0) + p_
+            stabilizer = name in ("CliffordSimulator", "StabilizerSampler")
+            if stabilizer and not cirq.has_stabilizer_effect(cirq.Circuit(P)):
+                continue
+            try:
+                for p_, rec in enumerate_branches(lambda r: _canon_records(mk(r).run(circ, repetitions=1)), max_branches=(256 if tier == "quick" else 4096) if stabilizer else 512):  # the CH form draws one bit per qubit
+                    got[rec] = got.get(rec, 0.0) + p_
+            except (TypeError, ValueError, NotImplementedError, RuntimeError):
+                if not stabilizer:
+                    raise
+                continue  # an operation the stabilizer back ends refuse (e.g. reset): refusing is not a wrong distribution
             cases += 1
             distinct.add((name, pn, mn, qn))
             if not refsim.dist_close(got, want, atol=1e-5):
@@ -185,7 +198,15 @@ def standin_born_scenarios(tier, seed):
         if len(fails) >= 3:
             break
     return dict(function=F + "/{sparse_simulator,density_matrix_simulator}[structured measurement scenarios]", case="born-scenarios",
-                bound="exhaustive product of 4 preparations x 9 measurement blocks (Pauli-product, inverted, repeated key) x 4 follow-ups on 3 qubits x 4 simulator configurations",
+                bound="exhaustive product of 6 preparations x 11 measurement blocks (Pauli-product, inverted, repeated key) x 4 follow-ups on 3 qubits x 4 simulator configurations + CliffordSimulator and StabilizerSampler on the stabilizer ones they accept",
                 cases=cases, distinct=len(distinct), failures=len(fails), exhaustive=True, _fails=fails[:3])
 standin_born_scenarios.prop = "C02"
-STANDINS = [standin_born, standin_born_scenarios]
+
+
+def standin_tableau_measure(tier, seed):
+    """the tableau measurement step behind StabilizerSampler / CliffordTableauSimulationState (shared with C13)"""
+    from contracts.C13_standins import standin_tableau_measure as f
+
+    return f(tier, seed)
+standin_tableau_measure.prop = "C02"
+STANDINS = [standin_born, standin_born_scenarios, standin_tableau_measure]
